@@ -234,7 +234,7 @@ theorem exprPrimary_ref {e : Env} {st : St} (F : Nat) (hF : 2 ≤ F) (id params 
 
 /-- `dd_expr_primary` on an integer literal `L <builtin-type> <number> E` -/
 theorem exprPrimary_lit {e : Env} {st : St} (F : Nat) (c : UInt8) (k : Nat) (rest : List UInt8)
-    (hc : types.any (fun t => t.1 == c) = true) (hk : 1 ≤ k) (hk2 : k < 2 ^ 31)
+    (hc : types.any (fun t => t.1 == c) = true) (hk : 1 ≤ k) (hk2 : k < 2 ^ 31) (hfx : e.fx = Fixes.all)
     (hl : st.len = e.n) (h : Rest e st.pos (76 :: c :: (decimal k ++ 69 :: rest))) :
     run (F + 3) .exprPrimary e st = .ok 0 { st with pos := st.pos + (2 + (decimal k).length + 1) } := by
   show bExprPrimary (run (F + 2)) e st = _
@@ -261,9 +261,16 @@ theorem exprPrimary_lit {e : Env} {st : St} (F : Nat) (c : UInt8) (k : Nat) (res
   have hcur5 : curr e st5 = .ok 69 st5 := by
     have := curr_eq (st := st5) hl h5
     simpa using this
+  have hgf : getFixes e st5 = .ok Fixes.all st5 := by simp [getFixes, hfx]
+  have hge : getEnv e st5 = .ok e st5 := rfl
+  -- F10k: the literal's digits are followed by 'E', which is not a lowercase hex digit
+  have hhex : hexSkip (e.n + 1) e st5 = .ok () st5 := by
+    unfold hexSkip
+    simp only [bind_def, hcur5, show isLowHex (69 : UInt8) = false from rfl, Bool.false_eq_true, ↓reduceIte, pure_def]
   unfold bExprPrimary
   simp only [bind_def, eof_eq hl h, hne, decide_false, Bool.false_eq_true, ↓reduceIte, hdc, Bool.not_true, hi1, hi2,
     curr_eq (st := st3) hl h3, peek_eq (st := st3) 1 hl h3, List.getD_cons_zero, hc95, Bool.false_and, hty, hnum, hcur5,
+    hgf, hge, hhex, Fixes.all,
     show ((69 : UInt8) == 95) = false from rfl, hdc2, decLevel, decType, modifySt, pure_def]
   simp [st5, st4, st3, st2, st1]
   omega
@@ -378,7 +385,7 @@ theorem templateArg_eq {e : Env} {st : St} (a : TArg) (ha : a.Ok) (F : Nat) (hF 
       have hF8 : 8 ≤ F := hF
       have : F = (F - 3) + 3 := by omega
       rw [this]
-      exact exprPrimary_lit _ c k rest hc hk1 hk2 hl h
+      exact exprPrimary_lit _ c k rest hc hk1 hk2 hfx hl h
     unfold bTemplateArg
     simp only [bind_def, curr_eq hl h, eof_eq hl h, hne, decide_false, Bool.false_eq_true, ↓reduceIte,
       List.getD_cons_zero, show ((76 : UInt8) == 88) = false from rfl, beq_self_eq_true, hp, Int.lt_irrefl, pure_def]
